@@ -347,6 +347,7 @@ def shared_cache_history(ctx, rec, rng):
     with s.world():
         s.load(rec)
         old_blob = bytes.fromhex(s.protect(b"old secret", sid, rk=rec.id)[5:])
+        other_blob = bytes.fromhex(s.protect(b"another group's secret", "S-1-5-21-7-7-7-512", rk=rec.id)[5:])
     inp = {"scenario": "shared cache: protect; protect naming the root key; unprotect a blob of an earlier L1 interval", "hash": rec.hash_name, "alg": rec.secret_algorithm,
            "dc_now": now, "old_blob_position": early}
     transcripts = {}
@@ -372,6 +373,19 @@ def shared_cache_history(ctx, rec, rng):
             rlog.reset_budget()
             outs.append(call(lambda: dpapi_ng.ncrypt_unprotect_secret(old_blob, server="dc01", cache=cache),
                              lambda: dpapi_ng.async_ncrypt_unprotect_secret(old_blob, server="dc01", cache=cache)))
+            # a fourth call that misses the cache (another security descriptor), after the DC's dynamic ISD_KEY endpoint MOVED (service restart):
+            # every online conversation asks the endpoint mapper where the key service listens
+            rlog.reset_budget()
+            n_conn = len(dc.connections)
+            moved = getattr(dc, "isd_port", None)
+            if moved is not None:
+                dc.isd_port = 5000 if moved != 5000 else 5001
+            fourth = call(lambda: dpapi_ng.ncrypt_unprotect_secret(other_blob, server="dc01", cache=cache),
+                          lambda: dpapi_ng.async_ncrypt_unprotect_secret(other_blob, server="dc01", cache=cache))
+            ports = [cn.port for cn in dc.connections[n_conn:]]
+            if fourth != ("ok", b"another group's secret") or ports[:1] != [135]:
+                ctx.violation("a later online call on a shared cache does not ask the endpoint mapper / does not reach the key service after its endpoint moved",
+                              dict(inp, flavour=flavour, call="4 (unprotect for another SID, ISD_KEY endpoint moved)"), str((fourth[0], str(fourth[1])[:60], ports)), "the plaintext; connections [135, <new port>]")
         transcripts[flavour] = transcript(dc)
         ctx.count("shared_cache_history")
         if outs[2] != ("ok", b"old secret"):
